@@ -335,6 +335,46 @@ func runC14(c *engine.Ctx) {
 					judged["differ:"+name] = true
 					fpKinds = append(fpKinds, name)
 					c.Probe("differ_pairs")
+
+					// ---- constructed pair: matrix-level extra keys that carry the NAME of a typed field (as
+					// interpolation of an unknown key can produce) must not stand in for the typed field
+					if v.step.Matrix != nil && len(v.step.Matrix.Setup) > 0 && c.Sched.Draw(2, "c14:shadow?") == 1 {
+						mk := func(mutate bool) *pipeline.CommandStep {
+							cs := new(pipeline.CommandStep)
+							if cs.UnmarshalJSON(wire) != nil || cs.Matrix == nil {
+								return nil
+							}
+							if cs.Matrix.RemainingFields == nil {
+								cs.Matrix.RemainingFields = map[string]any{}
+							}
+							cs.Matrix.RemainingFields["setup"] = map[string]any{"shadow": []any{"x"}}
+							cs.Matrix.RemainingFields["adjustments"] = []any{}
+							for _, a := range cs.Matrix.Adjustments {
+								if a.RemainingFields == nil {
+									a.RemainingFields = map[string]any{}
+								}
+								a.RemainingFields["with"] = map[string]any{"shadow": "x"}
+							}
+							if mutate {
+								for d, vals := range cs.Matrix.Setup {
+									cs.Matrix.Setup[d] = append(append([]string{}, vals...), "extra-value")
+								}
+							}
+							return cs
+						}
+						a, b2 := mk(false), mk(true)
+						if a != nil && b2 != nil {
+							pa, ea := signOnePayload(c, a, kp, j.repoURL, penv)
+							pb, eb := signOnePayload(c, b2, kp, j.repoURL, penv)
+							if ea == nil && eb == nil {
+								if bytes.Equal(pa, pb) {
+									c.Fail("C14.differ", "typed-matrix-field-shadowed-by-extra-key", "two steps whose matrix setups differ (one has an extra value in every dimension) have the SAME payload when the matrix also carries extra keys named setup/adjustments/with\npayload: %s\nstep: %s", truncate(string(pa), 600), truncate(string(wire), 700))
+								}
+								judged["differ:typed-field-shadowed"] = true
+								c.Probe("differ_pairs.shadowed-typed-field")
+							}
+						}
+					}
 				}
 			}
 		}
